@@ -6,6 +6,7 @@ def build(u):
     u.raw("use vstd::prelude::*;\nverus! {\n")
     u.env("prelude.rs")
     u.canary_decls()
+    u.spec("fee_spec.rs", shared=True)
     u.spec("fee.rs")
     u.raw("pub mod messages {\nuse super::*;\n")
     u.item(m, "TrampolineRoutingPolicy", "struct")
